@@ -12,6 +12,7 @@ import Xandikos.Generated.PathMap
 import Xandikos.Generated.Collation
 import Xandikos.Generated.Unescape
 import Xandikos.Generated.Wellknown
+import Xandikos.Generated.TimeRange
 import Xandikos.Driver.Codec
 
 open Xandikos Xandikos.Codec
@@ -27,6 +28,23 @@ def exc : Except Py.PyErr Bool → String
   | .ok v => bb v
   | .error (.raised cls _) => "raise:" ++ cls
 
+/-- `~` absent, `D<n>` a DATE whose midnight is instant `n`, `T<n>` a DATE-TIME at instant `n` -/
+def tvalOf (s : String) : Option Py.TVal :=
+  if s.startsWith "D" then (s.drop 1).toString.toInt?.map fun k => { isDateTime := false, key := k }
+  else if s.startsWith "T" then (s.drop 1).toString.toInt?.map fun k => { isDateTime := true, key := k }
+  else none
+
+def durOf (s : String) : Option Int := if s == "~" then none else s.toInt?
+
+/-- `a:b,c:d` periods (`-` for none) -/
+def periodsOf (s : String) : List (Int × Int) :=
+  if s == "-" then [] else (s.splitOn ",").filterMap fun it =>
+    match it.splitOn ":" with
+    | [a, b] => match a.toInt?, b.toInt? with
+      | some x, some y => some (x, y)
+      | _, _ => none
+    | _ => none
+
 def gstep (line : String) : String :=
   match words line with
   | ["etag", h, cur] => bb (Generated.etag_matches (fieldS h).toList ((field cur).map String.toList))
@@ -40,6 +58,19 @@ def gstep (line : String) : String :=
     | .ok parts => "=" ++ ",".intercalate (parts.map fun p => pctEncode (String.ofList p))
     | .error (.raised cls _) => "raise:" ++ cls
   | ["wk", s, p] => bb (Generated.wellknown_redirects (fieldS s).toList (fieldS p).toList)
+  | ["tr", kind, st, en, dtstart, dtend, due, completed, created, dur, fb] =>
+    match st.toInt?, en.toInt? with
+    | some s, some e =>
+      let comp : Py.Comp := { dtstart := tvalOf dtstart, dtend := tvalOf dtend, due := tvalOf due,
+                              completed := tvalOf completed, created := tvalOf created, duration := durOf dur,
+                              freebusy := periodsOf fb }
+      let tz : Py.TVal → Int := fun v => v.key
+      if kind == "vevent" then exc (Generated.apply_time_range_vevent s e comp tz)
+      else if kind == "vjournal" then exc (Generated.apply_time_range_vjournal s e comp tz)
+      else if kind == "vtodo" then exc (Generated.apply_time_range_vtodo s e comp tz)
+      else if kind == "vfreebusy" then exc (Generated.apply_time_range_vfreebusy s e comp tz)
+      else "bad-op"
+    | _, _ => "bad-op"
   | ["match", a, b, k] => exc (Generated.match_ (fieldS a).toList (fieldS b).toList (fieldS k).toList)
   | ["collate", name, a, b, k] =>
     match Generated.collations.find? (fun r => r.1 == (fieldS name).toList) with
